@@ -66,6 +66,13 @@ Wt(ts)     == [k |-> "wait", ts |-> ts]             \* wait [$p_i | 999]...   (0
 
 S1(x) == <<St(x)>>
 
+\* Generated scripts: every sequence (of a given length) over these commands,
+\* each followed by a probe.  p1, p2 start as the unknown pid 999.
+GenAtoms == << St(3), Sub(S1(4)), Cs(S1(6)), Bg(S1(5), 1), Bg(S1(0), 2), Wt(<<1>>), Wt(<<2, 1>>), Wt(<<>>),
+               Pipe(<<S1(3), S1(0)>>), Pipe(<< S1(4), <<Rd>> >>) >>
+RECURSIVE GenBody(_, _)
+GenBody(a, i) == IF i > Len(a) THEN <<>> ELSE <<GenAtoms[a[i]], Pr(i)>> \o GenBody(a, i + 1)
+
 \* Script ids: [f |-> family, a |-> parameters, pf |-> pipefail]
 Script(id) ==
   LET a == id.a
@@ -112,6 +119,8 @@ Script(id) ==
           [] id.f = "bgsink" -> <<Bg(S1(a[1]), 1), Pipe(<< S1(a[2]), <<Rd>> >>), Pr(1), Wt(<<1, 0>>), Pr(2)>>
           [] id.f = "cswait" -> <<Bg(S1(a[1]), 1), Cs(<<Wt(<<1>>), Pr(1), Bg(S1(a[2]), 2), Wt(<<2>>)>>), Pr(2),
                                   Wt(<<1>>), Pr(3)>>
+          \* generated: GenAtoms[a[1]]; probe 1; GenAtoms[a[2]]; probe 2; ...
+          [] id.f = "gen"    -> GenBody(a, 1)
   IN [id |-> id, pf |-> id.pf, body |-> body]
 
 Ids(f, as, pfs) == {[f |-> f, a |-> a, pf |-> pf] : a \in as, pf \in pfs}
@@ -148,9 +157,13 @@ CatBig ==
   \cup Ids("bgpp", {<<3, 0, 4, 0>>}, B2) \cup Ids("psub3", {<<3, 4, 0>>}, B2)
   \cup Ids("nbgw", {<<3, 4>>}, {FALSE}) \cup Ids("bgsub", {<<3, 4, 5>>}, {FALSE})
   \cup Ids("bgsink", {<<3, 4>>}, B2) \cup Ids("cswait", {<<3, 4>>}, {FALSE})
-CatThorough == CatAll \cup CatBig
+GenIx == 1 .. Len(GenAtoms)
+CatGen2 == Ids("gen", {<<i, j>> : i, j \in GenIx}, {TRUE})
+CatGen3 == Ids("gen", {<<i, j, k>> : i, j, k \in GenIx}, {TRUE})
+CatThorough == CatAll \cup CatBig \cup CatGen3
 CatQuick == CatAll \cup Ids("pipe4", {<<3, 0, 4, 0>>}, {TRUE}) \cup Ids("bg3", {<<3, 4, 5>>}, {FALSE})
             \cup Ids("bgsub", {<<3, 4, 5>>}, {FALSE}) \cup Ids("bgsink", {<<3, 4>>}, {TRUE})
+            \cup CatGen2
 \* scripts of the negative configurations (one is enough to exhibit each deviation)
 CatNegWait == Ids("sub", {<<5>>}, {FALSE}) \cup Ids("bgfg", {<<3, 4>>}, {FALSE})
 CatNegPipe == Ids("pipe2", {<<3, 4>>}, {FALSE})
@@ -180,7 +193,8 @@ TxtCmd(c) ==
 TxtBody(b) ==
   IF Len(b) = 1 THEN TxtCmd(b[1])
   ELSE TxtCmd(Head(b)) \o (IF Head(b).k = "bg" /\ Head(b).v = 0 THEN " " ELSE "; ") \o TxtBody(Tail(b))
-Text(sc) == (IF sc.pf THEN "set -o pipefail; " ELSE "") \o TxtBody(sc.body)
+Text(sc) == (IF sc.pf THEN "set -o pipefail; " ELSE "")
+            \o (IF sc.id.f = "gen" THEN "p1=999; p2=999; " ELSE "") \o TxtBody(sc.body)
 
 -----------------------------------------------------------------------------
 (* Denotation: what a script must yield, computed sequentially.  Processes *)
